@@ -22,7 +22,8 @@ RULE = ('records: 1-4 generated Kekule molecules (numbers <= 999, charges, isoto
         '(centres without explicit hydrogens) equal; the written mol block read by RDKit is the same molecule; RDKit-written V2000/'
         'V3000 blocks of corpus molecules are read to the same molecule; records after a damaged one are all returned in order; '
         'reader[i] == list(reader)[i]; repository test files give the independently counted number of records. '
-        'records written in two sessions (append=True) must read like one; drawings judged geometrically at record precision. non-trivial = record has charge, isotope, radical, stereo label, special bond or metadata; distinct by written text')
+        'records written in two sessions (append=True) must read like one; drawings judged geometrically at record precision. non-trivial = record has charge, isotope, radical, stereo label, special bond or metadata; distinct by written text'
+        '; also: the curated witness list is swept completely on every run.')
 ASSUMPTIONS = ['metadata is compared modulo the readers\' documented per-line whitespace normalisation',
                'stereo is compared only for centres without explicit hydrogen neighbours (recorded writer/reader asymmetry)',
                'RDKit mol block reading is the independent judge of the wedge convention']
@@ -37,7 +38,7 @@ def shards(tier, seed):
     n = 300 if tier == 'quick' else 4000
     out = [dict(kind='rt', shard=i, n=n) for i in range(10)]
     out += [dict(kind='rdkit', shard=i, n=100 if tier == 'quick' else 2000) for i in range(2)]
-    out += [dict(kind='files')]
+    out += [dict(kind='files'), dict(kind='curated')]
     return out
 
 
@@ -46,6 +47,12 @@ def run_shard(shard, tier, seed):
         return direct_run(ID, [{'repo_file': p} for p in sorted(glob.glob(os.path.join(REPO, 'test', '*')) +
                                                                 glob.glob(os.path.join(REPO, 'doc', 'tutorial', '*')))
                                if p.rsplit('.', 1)[-1] in ('sdf', 'rdf', 'mrv')], check_case)
+    if shard['kind'] == 'curated':
+        # the curated witnesses (dependent stereo elements, cages, labelled isotopes ...) are always swept completely, each with a
+        # writer and an RDKit drawing fixed by its position (drawn cases meet a given witness only now and then)
+        return direct_run(ID, [dict(mols=[{'k': 'smi', 's': s}], writer=WRITERS[(i + seed) % len(WRITERS)], seed=seed * 7919 + i,
+                                    layout='rdkit', meta=[], name='', reaction=False, damage=0, on_disk=False)
+                               for i, s in enumerate(molgen.curated())], check_case)
     if shard['kind'] == 'rdkit':
         strat = st.fixed_dictionaries({'rdkit_block': st.integers(0, len(molgen.corpus()) - 1), 'v3000': st.booleans()})
         return hyp_run(ID, strat, check_case, max_examples=shard['n'], seed=seed * 1000 + 300 + shard['shard'])
